@@ -1081,10 +1081,7 @@ class Pregex():
         pre = __class__._to_pregex(pre)
         if pre._get_type() == _Type.Empty:
             return self
-        if _re.search(_re.sub(r"\s", "", r"""
-            (?<!\\)(?:\\\\)*(?<!\()(?:\?|\*|\+|\{,\d+\}|\{\d+,\}|\{\d+,\d+\})|
-            (?<!\\)(?:\\\\)*\\\((?:\?|\*|\+|\{,\d+\}|\{\d+,\}|\{\d+,\d+\})
-        """), str(pre)) is not None:
+        if not __class__.__is_fixed_width(pre):
             raise _ex.NonFixedWidthPatternException(pre)
         return __class__(
             f"(?<={pre}){self._assert_conditional_group()}",
@@ -1112,10 +1109,7 @@ class Pregex():
         pre = __class__._to_pregex(pre)
         if pre._get_type() == _Type.Empty:
             return self
-        if _re.search(_re.sub(r"\s", "", r"""
-            (?<!\\)(?:\\\\)*(?<!\()(?:\?|\*|\+|\{,\d+\}|\{\d+,\}|\{\d+,\d+\})|
-            (?<!\\)(?:\\\\)*\\\((?:\?|\*|\+|\{,\d+\}|\{\d+,\}|\{\d+,\d+\})
-        """), str(pre)) is not None:
+        if not __class__.__is_fixed_width(pre):
             raise _ex.NonFixedWidthPatternException(pre)
         return __class__(
             f"(?<={pre}){self._assert_conditional_group()}(?={pre})",
@@ -1162,10 +1156,7 @@ class Pregex():
         pre = __class__._to_pregex(pre)
         if pre._get_type() == _Type.Empty:
             raise _ex.EmptyNegativeAssertionException()
-        if _re.search(_re.sub(r"\s", "", r"""
-            (?<!\\)(?:\\\\)*(?<!\()(?:\?|\*|\+|\{,\d+\}|\{\d+,\}|\{\d+,\d+\})|
-            (?<!\\)(?:\\\\)*\\\((?:\?|\*|\+|\{,\d+\}|\{\d+,\}|\{\d+,\d+\})
-        """), str(pre)) is not None:
+        if not __class__.__is_fixed_width(pre):
             raise _ex.NonFixedWidthPatternException(pre)
         pattern = f"(?<!{pre}){self._assert_conditional_group()}"
         return __class__(pattern, escape=False)
@@ -1191,10 +1182,7 @@ class Pregex():
         pre = __class__._to_pregex(pre)
         if pre._get_type() == _Type.Empty:
             raise _ex.EmptyNegativeAssertionException()
-        if _re.search(_re.sub(r"\s", "", r"""
-            (?<!\\)(?:\\\\)*(?<!\()(?:\?|\*|\+|\{,\d+\}|\{\d+,\}|\{\d+,\d+\})|
-            (?<!\\)(?:\\\\)*\\\((?:\?|\*|\+|\{,\d+\}|\{\d+,\}|\{\d+,\d+\})
-        """), str(pre)) is not None:
+        if not __class__.__is_fixed_width(pre):
             raise _ex.NonFixedWidthPatternException(pre)
         pattern = f"(?<!{pre}){self._assert_conditional_group()}(?!{pre})"
         return __class__(pattern, escape=False)
@@ -1503,6 +1491,21 @@ class Pregex():
             temp, flags=__class__.__flags) is not None:
             return _Type.Quantifier, True
         return _Type.Other, True
+
+
+    @staticmethod
+    def __is_fixed_width(pre: 'Pregex') -> bool:
+        '''
+        Returns ``True`` if the provided pattern can be used within \
+        a lookbehind assertion, that is, if it has a fixed width.
+
+        :param Pregex pre: The pattern that is to be examined.
+        '''
+        try:
+            _re.compile(f"(?<={pre})", flags=__class__.__flags)
+        except _re.error as e:
+            return 'fixed-width' not in str(e)
+        return True
 
 
     @staticmethod
